@@ -43,7 +43,7 @@ Open Scope N_scope.
    msg_id, seq_no and body. *)
 Theorem C06_agreement :
   forall (H : bytes -> bytes) (E D : bytes -> bytes -> bytes) (modexp : Z -> Z -> Z -> Z)
-         (is_prime : N -> bool) (split : N -> option (N * N)) (foreign_ok : bytes -> bool),
+         (is_prime : N -> bool) (split : N -> option (N * N)),
   (forall m, length (H m) = 20%nat) -> (forall m, okb (H m)) ->
   (forall k b, length (E k b) = 16%nat) -> (forall k b, length (D k b) = 16%nat) ->
   (forall k b, okb k -> okb b -> okb (E k b)) ->
@@ -58,7 +58,7 @@ Theorem C06_agreement :
      forall i, (0 < i <= pad_need (20 + length answer))%nat ->
        H (answer ++ firstn i (s_pad sp (pad_need (20 + length answer)))) <> H answer) ->
   exists f1 f2 f3 key kid salt hash1,
-    outcome_of (handshake H E D modexp is_prime split foreign_ok (mkpub (s_n sp) (s_e sp)) dr (srv_env H E D modexp sp))
+    outcome_of (handshake H E D modexp is_prime split (mkpub (s_n sp) (s_e sp)) dr (srv_env H E D modexp sp))
       = ([SendPlain f1; SendPlain f2; SendPlain f3; Save key kid salt], Success key kid salt) /\
     srv_secrets H D modexp sp f1 f2 f3 = Some (mksecrets key kid salt hash1 (d_new_nonce dr)) /\
     length key = 256%nat /\
@@ -68,7 +68,7 @@ Theorem C06_agreement :
      forall sid msgid seq ack body,
        sid < 2 ^ 64 -> msgid < 2 ^ 64 -> seq < 2 ^ 32 -> N.of_nat (length body) < 2 ^ 31 ->
        exists pkt,
-         connect_and_request H E D modexp is_prime split foreign_ok (mkpub (s_n sp) (s_e sp)) dr
+         connect_and_request H E D modexp is_prime split (mkpub (s_n sp) (s_e sp)) dr
              (srv_env H E D modexp sp) sid msgid seq ack body
            = ([SendPlain f1; SendPlain f2; SendPlain f3; Save key kid salt; SendEncrypted pkt], Success key kid salt) /\
          open_server H (ige_decrypt D) key pkt = Some (salt, sid, msgid, seq_ack seq ack, body)).
@@ -92,7 +92,7 @@ Print Assumptions C06_splitpq_partial.
    about the inputs (conformant server, well-formed draws), "the loop returns", ProbablyPrime's soundness and the
    explicit SHA-1 no-collision premise. *)
 Theorem C06_agreement_inst :
-  forall (is_prime : N -> bool) (foreign_ok : bytes -> bool) fuel fuel_inner (rnd : nat -> N),
+  forall (is_prime : N -> bool) fuel fuel_inner (rnd : nat -> N),
   (forall n, n < 2 ^ 64 -> is_prime n = true -> prime (Z.of_N n)) ->
   forall sp, conformant sha1 modpow sp ->
   forall dr, draws_ok dr ->
@@ -101,14 +101,14 @@ Theorem C06_agreement_inst :
      forall i, (0 < i <= pad_need (20 + length answer))%nat ->
        sha1 (answer ++ firstn i (s_pad sp (pad_need (20 + length answer)))) <> sha1 answer) ->
   exists f1 f2 f3 key kid salt hash1,
-    outcome_of (handshake sha1 aes_enc aes_dec modpow is_prime (split_model fuel fuel_inner rnd) foreign_ok
+    outcome_of (handshake sha1 aes_enc aes_dec modpow is_prime (split_model fuel fuel_inner rnd)
                   (mkpub (s_n sp) (s_e sp)) dr (srv_env sha1 aes_enc aes_dec modpow sp))
       = ([SendPlain f1; SendPlain f2; SendPlain f3; Save key kid salt], Success key kid salt) /\
     srv_secrets sha1 aes_dec modpow sp f1 f2 f3 = Some (mksecrets key kid salt hash1 (d_new_nonce dr)) /\
     length key = 256%nat.
 Proof.
-  intros is_prime foreign_ok fuel fi rnd PS sp CF dr DR SX NC.
-  destruct (agreement_full sha1 aes_enc aes_dec modpow is_prime (split_model fuel fi rnd) foreign_ok
+  intros is_prime fuel fi rnd PS sp CF dr DR SX NC.
+  destruct (agreement_full sha1 aes_enc aes_dec modpow is_prime (split_model fuel fi rnd)
               sha1_length sha1_bytes_ok aes_enc_length aes_dec_length aes_enc_bytes_ok
               (fun k b Lk Ok Lb Ob => aes256_dec_enc k b Lk Ok Lb Ob)
               modpow_spec PS (split_model_sound fuel fi rnd) sp CF dr DR SX NC)
@@ -193,7 +193,7 @@ Qed.
    on the server *)
 Definition ex_split := split_model 5 2000 (fun k => 7 + 1000003 * N.of_nat k).
 Definition ex_run :=
-  connect_and_request sha1 aes_enc aes_dec modpow (fun _ => false) ex_split (fun _ => true)
+  connect_and_request sha1 aes_enc aes_dec modpow (fun _ => false) ex_split
     (mkpub ex_rsa_n 1) ex_dr (srv_env sha1 aes_enc aes_dec modpow ex_sp) 77 6000000000000000004 0 true (lit "ping").
 
 Example C06_example_run :
